@@ -56,6 +56,7 @@ class Family:
     emit_final_ac: str = "EmitFinalAC"
     scenario_of: Callable[[list, int], dict] | None = None
     extra_traces: Callable[[str, int], list[dict]] | None = None   # e.g. harvested / random programs
+    clauses: set[str] | None = None    # clause names that belong to this property (None = all)
 
 
 def run_family(fam: Family, tier: str, seed: int) -> int:
@@ -176,6 +177,11 @@ def run_part(fam: Family, tier: str, seed: int, rep: core.Report) -> None:
             rep.violation("handle budget exceeded: the program never became idle",
                           {"scenario": s["scn"], "kw": s["kw"], "src": s["src"],
                            "family": fam.mc_module}, signature="budget")
+            continue
+        if v["bad"] and fam.clauses is not None and not (set(v["bad"]) & fam.clauses):
+            # the first failing clause belongs to the sibling property decided by the same observer
+            rep.extra["violations_of_sibling_property_clauses"] = \
+                rep.extra.get("violations_of_sibling_property_clauses", 0) + 1
             continue
         if v["bad"]:
             ev = r["events"][v["at"] - 1] if 0 < v["at"] <= len(r["events"]) else None
